@@ -180,6 +180,9 @@ def random_history(rng, hid, profile):
     conv = []
     if kind == "native":
         conv = [["native", rng.choice(STRATS)], ["generic", rng.choice(GSTRATS)]]
+        if rng.random() < 0.25:
+            # the k-th add closure of the helper fails (beyond the listed properties: EXT tags)
+            conv[rng.randrange(2)].append(rng.randrange(1, 7))
     return {"hid": hid, "group": hid, "kind": kind, "calls": calls, "converts": conv,
             "source": "random:" + profile}
 
